@@ -144,6 +144,19 @@ def build_pqh(log):
     return out
 
 
+def build_pqh_race(log):
+    """the same harness with the Go race detector (needs cgo)"""
+    out = os.path.join(BIN, "pqh-race")
+    if os.path.exists(out):
+        os.remove(out)
+    env = dict(GOENV, CGO_ENABLED="1")
+    p = sh(["go", "build", "-race", "-tags", "verif", "-o", out, "./cmd/pqh"], cwd=os.path.join(VERIF, "harness"), env=env, check=False)
+    if p.returncode != 0:
+        log("race build failed: " + p.stdout[-500:])
+        return None
+    return out
+
+
 def lake_build(targets, log):
     """Returns (ok, output)."""
     p = sh(["lake", "build"] + targets, cwd=LEAN, check=False)
